@@ -820,3 +820,183 @@ twin('C10-twin-unique-via-set', 'C10',
      [(P+'taxonomy/utils.py',
        "    if unq_ct.max() > 1:\n",
        "    if len(set(all_rows)) != len(all_rows):\n")])
+
+
+# ----------------------------------------------------------------------
+# C05 / C13
+# ----------------------------------------------------------------------
+mutant('C05-drop-load-floor', 'C05',
+       'the enforced minimum of the load chunk size is removed',
+       [(P+'utils/csc_to_csr.py',
+         "    load_chunk_size = load_chunk_size//2\n\n"
+         "    load_chunk_size = max(100, load_chunk_size)\n",
+         "    load_chunk_size = load_chunk_size//2\n")],
+       'R-POS/range-step', '_calculate_csr_indptr')
+mutant('C05-drop-fill-floor', 'C05',
+       'the enforced minimum of the fill-pass load size is removed',
+       [(P+'utils/csc_to_csr.py',
+         "    load_chunk_size = max(100, load_chunk_size)\n"
+         "    elements_at_a_time = max(100, elements_at_a_time)\n",
+         "    elements_at_a_time = max(100, elements_at_a_time)\n")],
+       'R-POS/range-step', 'transpose_sparse_matrix_on_disk')
+mutant('C05-data-chunks-unguarded', 'C05',
+       'the data dataset of the transposition is chunked by the raw count '
+       '(the defect fixed by the F3 commit)',
+       [(P+'utils/csc_to_csr.py',
+         "                dtype=data_dtype,\n                chunks=chunks)\n",
+         "                dtype=data_dtype,\n"
+         "                chunks=(min(n_non_zero, 1000000),))\n")],
+       'R-POS/chunk-extent', 'transpose_sparse_matrix_on_disk')
+mutant('C05-csc-arm-removed', 'C05',
+       'the CSC arm of the row iterator is removed (CSC files fall into '
+       'the error branch)',
+       [(P+'anndata_iterator/anndata_iterator.py',
+         "        elif encoding_type.startswith('csc'):\n"
+         "            self._initialize_as_csc(\n"
+         "                h5ad_path=h5ad_path,\n"
+         "                row_chunk_size=row_chunk_size,\n"
+         "                tmp_dir=tmp_dir,\n"
+         "                keep_open=keep_open)\n", "")],
+       'R-EXH')
+mutant('C05-csc-read-as-csr', 'C05',
+       'CSC files are accepted by the CSR arm (prefix test on "cs")',
+       [(P+'anndata_iterator/anndata_iterator.py',
+         "        if encoding_type.startswith('csr') and array_shape is not "
+         "None:",
+         "        if encoding_type.startswith('cs') and array_shape is not "
+         "None:")],
+       'R-EXH/iterator-arms')
+mutant('C05-ge-zero-no-sparse', 'C05',
+       'the non-negativity probe no longer knows sparse encodings',
+       [(P+'validation/utils.py',
+         "        elif 'csr' in attrs['encoding-type'] \\\n"
+         "                or 'csc' in attrs['encoding-type']:\n"
+         "            return _get_minmax_from_sparse(in_file[layer_key])\n"
+         "        else:\n            pass\n",
+         "        else:\n"
+         "            raise RuntimeError('unknown encoding')\n")],
+       'R-EXH/encoding', 'get_minmax_x_from_h5ad')
+mutant('C05-round-int-no-csc', 'C05',
+       'integer rounding handles csr only',
+       [(P+'validation/utils.py',
+         "    elif 'csr' in encoding_type or 'csc' in encoding_type:\n"
+         "        _round_sparse_x_to_integers(",
+         "    elif 'csr' in encoding_type:\n"
+         "        _round_sparse_x_to_integers(")],
+       'R-EXH/encoding', 'round_x_to_integers')
+mutant('C05-stop-test-off', 'C05',
+       'the dense iterator stops one row early',
+       [(P+'anndata_iterator/anndata_iterator.py',
+         "        if self.r0 >= self.n_rows:\n"
+         "            if self.h5_handle is not None:\n"
+         "                self.h5_handle = None\n"
+         "            raise StopIteration\n"
+         "        r1 = min(self.n_rows, self.r0+self.row_chunk_size)\n"
+         "        chunk = self.get_chunk(r0=self.r0, r1=r1)\n"
+         "        self.r0 = r1\n        return chunk\n\n"
+         "    def get_chunk(self, r0, r1):\n"
+         "        \"\"\"\n        Returns the tuple (data[r0:r1, :], r0, "
+         "r1)\n        \"\"\"\n        with self.h5_handler as h5_handle:"
+         "\n            chunk = h5_handle[self.data_key][r0:r1, :]",
+         "        if self.r0 >= self.n_rows - 1:\n"
+         "            if self.h5_handle is not None:\n"
+         "                self.h5_handle = None\n"
+         "            raise StopIteration\n"
+         "        r1 = min(self.n_rows, self.r0+self.row_chunk_size)\n"
+         "        chunk = self.get_chunk(r0=self.r0, r1=r1)\n"
+         "        self.r0 = r1\n        return chunk\n\n"
+         "    def get_chunk(self, r0, r1):\n"
+         "        \"\"\"\n        Returns the tuple (data[r0:r1, :], r0, "
+         "r1)\n        \"\"\"\n        with self.h5_handler as h5_handle:"
+         "\n            chunk = h5_handle[self.data_key][r0:r1, :]")],
+       'R-SAMEVAL/cursor', 'stop')
+
+twin('C05-twin-floor-as-if', 'C05',
+     'the enforced minimum written as an explicit zero test',
+     [(P+'utils/csc_to_csr.py',
+       "    load_chunk_size = load_chunk_size//2\n\n"
+       "    load_chunk_size = max(100, load_chunk_size)\n",
+       "    load_chunk_size = load_chunk_size//2\n\n"
+       "    if load_chunk_size < 1:\n        load_chunk_size = 100\n")])
+twin('C05-twin-eq-dispatch', 'C05',
+     'iterator dispatch written with equality tests',
+     [(P+'anndata_iterator/anndata_iterator.py',
+       "        elif encoding_type.startswith('csc'):",
+       "        elif encoding_type == 'csc_matrix':")])
+
+mutant('C13-join-chunks-unguarded', 'C13',
+       'the join of the parallel transposition chunks by the raw count',
+       [(P+'utils/csc_to_csr_parallel.py',
+         "            shape=(indices_size,),\n"
+         "            chunks=indices_chunks,\n"
+         "            dtype=indices_dtype)",
+         "            shape=(indices_size,),\n"
+         "            chunks=(min(indices_size, 1000000),),\n"
+         "            dtype=indices_dtype)")],
+       'R-POS/chunk-extent', '_transpose_sparse_matrix_on_disk_v2')
+mutant('C13-data-chunk-by-indptr', 'C13',
+       'the data dataset of the join is chunked by the pointer count '
+       '(larger than its own shape for small matrices)',
+       [(P+'utils/csc_to_csr_parallel.py',
+         "                shape=(indices_size,),\n"
+         "                chunks=indices_chunks,\n",
+         "                shape=(indices_size,),\n"
+         "                chunks=(min(indptr_size, 1000000),),\n")],
+       'R-SAMEVAL/chunk-vs-shape')
+mutant('C13-amalgamate-unguarded', 'C13',
+       'stacked CSR data chunked by the raw number of stored entries',
+       [(P+'utils/anndata_utils.py',
+         "            shape=(n_valid,),\n            chunks=data_chunks,\n"
+         "            dtype=data_dtype,",
+         "            shape=(n_valid,),\n"
+         "            chunks=min(n_valid, 20000),\n"
+         "            dtype=data_dtype,")],
+       'R-POS/chunk-extent', 'amalgamate_csr_to_x')
+mutant('C13-h5copy-floor-removed', 'C13',
+       'the copy hyperslab size loses its floor of 1',
+       [(P+'utils/h5_utils.py',
+         "        chosen = max(1, min(per_dim, this_n))\n",
+         "        chosen = min(per_dim, this_n)\n")],
+       'R-POS/range-step', '_get_slices_for_copy')
+mutant('C13-overlapping-pieces', 'C13',
+       'worker sub-ranges overlap by one index',
+       [(P+'utils/csc_to_csr_parallel.py',
+         "        i1 = min(indices_max, i0+indices_chunk_size)\n",
+         "        i1 = min(indices_max, i0+indices_chunk_size+1)\n")],
+       'R-SAMEVAL/parallel-pieces', 'slice')
+mutant('C13-join-sorted-by-name', 'C13',
+       'the pieces are joined in file-name order',
+       [(P+'utils/csc_to_csr_parallel.py',
+         "    indices_size = 0\n    indptr_size = 0\n"
+         "    for path in path_list:\n",
+         "    path_list.sort()\n"
+         "    indices_size = 0\n    indptr_size = 0\n"
+         "    for path in path_list:\n")],
+       'R-SAMEVAL/parallel-pieces', 'append-order')
+mutant('C13-join-dir-listing', 'C13',
+       'the pieces are joined in directory-listing order',
+       [(P+'utils/csc_to_csr_parallel.py',
+         "        chunk_size = 1000000\n        for path in path_list:\n",
+         "        chunk_size = 1000000\n"
+         "        for path in pathlib.Path(tmp_dir).iterdir():\n")],
+       'R-SAMEVAL/parallel-pieces')
+mutant('C13-copy-layer-no-csc', 'C13',
+       'copy_layer_to_x no longer handles csc',
+       [(P+'utils/anndata_utils.py',
+         "    elif 'csr' in encoding_type or 'csc' in encoding_type:\n"
+         "        _copy_layer_to_x_sparse(",
+         "    elif 'csr' in encoding_type:\n"
+         "        _copy_layer_to_x_sparse(")],
+       'R-EXH/encoding', 'copy_layer_to_x')
+
+twin('C13-twin-chunks-helper-var', 'C13',
+     'guarded chunk extent computed through an intermediate variable',
+     [(P+'utils/csc_to_csr_parallel.py',
+       "    if indices_size > 0:\n"
+       "        indices_chunks = (min(indices_size, 1000000),)\n",
+       "    if indices_size > 0:\n"
+       "        n_chunk = min(indices_size, 1000000)\n"
+       "        indices_chunks = (n_chunk,)\n")])
+twin('C13-twin-rename-loop-var', 'C13',
+     'rename the dispatch loop variable',
+     [(P+'utils/csc_to_csr_parallel.py', "i0", "lo", 4)])
